@@ -48,7 +48,7 @@ fn slot_churn(sim: &Sim, n: u32) {
 
 pub fn exec_op2(sim: &Sim, op: &Op, _in_cb: bool) {
     match op {
-        Op::InsertLifecycle { id, with_ping, synth, script, two, fail_step2, keep_rejected, sock, synth_on_sock, forgetful, .. } => crate::life::insert_lifecycle(sim, *id, *with_ping, synth, script, *two && *with_ping, *fail_step2, *keep_rejected, *sock, *sock && *synth_on_sock, !*forgetful),
+        Op::InsertLifecycle { id, with_ping, synth, script, two, fail_step2, keep_rejected, sock, synth_on_sock, forgetful, slow, .. } => crate::life::insert_lifecycle(sim, *id, *with_ping, synth, script, *two && *with_ping, *fail_step2, *keep_rejected, *sock, *sock && *synth_on_sock, !*forgetful, *slow),
         Op::InsertExecutor { id, script } => crate::exec::insert_executor(sim, *id, script),
         Op::Schedule { exec, task, pendings, script } => crate::exec::schedule(sim, *exec, *task, *pendings, script),
         Op::Wake(t) => crate::exec::wake(sim, *t),
